@@ -135,6 +135,13 @@ type runnablePipeline struct {
 	t                *tomb.Tomb
 	backoff          *backoff.Backoff
 	recoveryAttempts *atomic.Int64
+
+	// forceStopped is set by stopForceful. A forced stop kills the tomb with a
+	// fatal error, but the first Kill wins: if the run was already failing
+	// with a transient error (or is already parked in the recovery backoff,
+	// which Stop admits), that fatal mark is lost. StartWithBackoff checks
+	// this marker so a force-stopped pipeline is never restarted by recovery.
+	forceStopped atomic.Bool
 }
 
 // ConnectorService can fetch and create a connector instance, and report when
@@ -292,6 +299,12 @@ func (s *Service) StartWithBackoff(ctx context.Context, rp *runnablePipeline) er
 		return nil
 	}
 
+	// A force stop was accepted for this run while it was failing or waiting
+	// here: it must end failed-by-force-stop, not be resurrected.
+	if rp.forceStopped.Load() {
+		return cerrors.FatalError(pipeline.ErrForceStop)
+	}
+
 	return s.Start(ctx, rp.pipeline.ID)
 }
 
@@ -363,6 +376,7 @@ func (s *Service) stopForceful(ctx context.Context, rp *runnablePipeline) error 
 		Msg("force stopping pipeline")
 
 	// Creates a FatalError to prevent the pipeline from recovering.
+	rp.forceStopped.Store(true)
 	rp.t.Kill(cerrors.FatalError(pipeline.ErrForceStop))
 	for _, n := range rp.n {
 		if node, ok := n.(stream.ForceStoppableNode); ok {
